@@ -15,9 +15,12 @@ Record case := {
 Definition out_of (l : list nat) (id : nat) : scan_res :=
   match nth id l 1 with 0 => SPos | 1 => SNeg | _ => SFail end.
 
+(* scheduling policy of the reference run: the request source's input never stalls *)
+Definition no_stall (l : loc) : bool := match l with Src _ => true | _ => false end.
+
 Definition final (c : case) : net val loc ev :=
   let len := length (creqs c) in
-  exec (beh (cW c) (out_of (couts c))) (fun _ => 0)
+  exec (beh (cW c) (out_of (couts c))) (fun _ => 0) no_stall
        (rounds (8 * len + 40 + 2 * cW c) (cW c + 6)) (init (cW c) (ccap c) (creqs c)).
 
 Definition scan_ids (l : list ev) : list nat := omap (fun e => match e with EScan id => Some id | _ => None end) l.
